@@ -1,10 +1,10 @@
 package absint
 
 import (
-	"golang.org/x/tools/go/packages"
-	"go/ast"
 	"fmt"
+	"go/ast"
 	"go/types"
+	"golang.org/x/tools/go/packages"
 	"os"
 	"runtime/debug"
 	"sort"
